@@ -76,7 +76,7 @@ add("C14", "generated lossy configurations vs a reference size model (minimal-qi
     "q >= minimum, coefficients equal harness quantisation, field widths, budgets, measured slice-region sizes, stream validates.",
     "Unquantised coefficients from transform_and_slice_picture; offsets measured with MonitoredDeserialiser.")
 add("C24", "generated schedules of real worker processes (orders, batches, hash seeds) vs serial run; disjoint-write-set invariant",
-    "Exploration: 4 (quick) / 64 (thorough) (configuration set, schedule) cases; output trees (path -> SHA-256) of the scheduled concurrent "
+    "Exploration: 5 (quick) / 48 (thorough) cases = (3 configurations dealt from seeded permutations of 15 variants, schedule); output trees (path -> SHA-256) of the scheduled concurrent "
     "worker processes, of two serial runs under different PYTHONHASHSEED and of a one-at-a-time replay must be identical and write sets disjoint.",
     "Order, batching and hash seeds are generated; OS-level interleaving inside a batch is not controlled (disjoint write sets are the argument for arbitrary interleavings).")
 add("C25", "mutated/valid streams through the validator CLI in-process vs direct decoder run",
